@@ -90,6 +90,7 @@ type setup struct {
 	n, t  int
 	ids   []party.ID
 	cfgs  map[party.ID]interface{}
+	alt   map[party.ID]interface{} // doerner-sign: the key material of another key generation (see doernerCheat)
 	pres  map[party.ID]*ecdsa.PreSignature
 	msg   []byte
 	group oracle.Pt
@@ -120,6 +121,9 @@ func getSetup(proto string, n, t int, seed string) *setup {
 		s.cfgs = runKG(protos.FrostKeygen(s.ids, t, true, []byte("kg")))
 	case "doerner-sign", "doerner-refresh":
 		s.cfgs = runKG(protos.DoernerKeygen(s.ids[0], s.ids[1], []byte("kg")))
+		if proto == "doerner-sign" {
+			s.alt = runKG(protos.DoernerKeygen(s.ids[0], s.ids[1], []byte("kg-other")))
+		}
 	case "cmp-sign", "cmp-refresh", "cmp-presign", "cmp-presign-online":
 		s.cfgs = protos.DealCmp(s.ids, t, seed+key)
 	}
@@ -318,11 +322,16 @@ func runOnce(sc Scenario, seed string) (outcome, []sim.Event, bool) {
 		r.early(sess, label, seed)
 	case "frostcheat":
 		r.frostCheat(sess, label)
+	case "doernercheat":
+		r.doernerCheat(label)
 	default:
 		fatal("unknown scenario kind %q", sc.Kind)
 	}
 	if r.retry {
 		return r.out, nil, true
+	}
+	if !r.out.Applicable && len(e.Parties) == 0 {
+		return r.out, nil, false
 	}
 
 	// ---- property-level predicates on the real outcome
@@ -1057,6 +1066,52 @@ func (r *runner) frostCheat(sess *protos.Session, label func(party.ID) string) {
 			r.violate("C04", "cheater-not-identified", fmt.Sprintf("%s with culprits %v (%v); FrostAlg.tla (BlameComplete) says exactly [%s]", desc, st.Culprits, st.Err, k), "")
 		case st.St == "run":
 			r.violate("C04", "cheater-not-identified", desc+" (still waiting)", "")
+		}
+	}
+}
+
+// doernerCheat: one side of a Doerner signing session computes with other inputs than key generation fixed (rule:
+// share / public / ot / kinv, see protos.DoernerSignCheat and DoernerAlg.tla).  DoernerAlg.tla: the honest side returns
+// a signature only if it is valid - and without a collision of the masks it returns none; a party that ends with an
+// error it detected itself names the other side at most.
+func (r *runner) doernerCheat(label func(party.ID) string) {
+	e := r.e
+	e.Log = false
+	su := r.su
+	k := r.byz
+	if su.proto != "doerner-sign" || su.alt == nil {
+		r.out.Applicable = false
+		r.out.Why = "needs Doerner key material"
+		return
+	}
+	recv, send := su.ids[0], su.ids[1]
+	if r.sc.Rule == "kinv" && k != recv {
+		r.out.Applicable = false
+		r.out.Why = "kinv is a deviation of the Receiver"
+		return
+	}
+	cfgs := protos.CloneConfigs(su.cfgs)
+	sess, applied := protos.DoernerSignCheat(recv, send, cfgs[recv].(*doerner.ConfigReceiver), cfgs[send].(*doerner.ConfigSender),
+		su.alt[recv].(*doerner.ConfigReceiver), su.alt[send].(*doerner.ConfigSender), su.msg, k, r.sc.Rule, []byte("sid"))
+	for _, id := range su.ids {
+		e.AddParty(id, r.newParty(sess, id, label(id)))
+	}
+	r.loop(nil)
+	if !applied() {
+		r.out.Applicable = false
+		r.out.Why = "the state alteration was not reached"
+		return
+	}
+	r.out.Reached = true
+	for _, id := range r.honest {
+		st := e.Parties[id].Status()
+		if st.St == "done" {
+			desc := fmt.Sprintf("%s, %s deviates (%s): honest side %s finished", su.proto, k, r.sc.Rule, id)
+			if su.judgeResult(st.Result) == "wrong" {
+				r.violate("C03", "wrong-result", desc+" with an invalid signature", "")
+			} else {
+				r.violate("C03", "deviation-undetected", desc+" although the two sides computed with inconsistent inputs (DoernerAlg.tla: only by a collision of the masks)", "")
+			}
 		}
 	}
 }
